@@ -351,4 +351,107 @@ theorem pts_sim (g : Nat → Option Nat) : ∀ (cnt f j : Nat) (k : ThetaSt OSt)
       simp [OSt.put, ptsd, logs_append, this.1, this.2.1, this.2.2, logs, mDbls, mSteps, mKers]
 end Loop1
 
+
+/-! ### the gluing step and its evaluation -/
+
+theorem glueStep_inv (P : Params) (s : St) (he0 : s.err = none) (he : (glueStep P s).err = none) :
+    ∃ c kk : Nat, s.lenList = (c : Int) + 1 ∧ c < P.n ∧ s.pts c = some kk ∧
+      glueStep P s = { s with lenList := (c : Int),
+                              q := fun j => if (j : Int) < (c : Int) then (s.pts j).map (· - 1) else none,
+                              trace := s.trace ++ [.glue (c : Int) kk, .glueEval (c : Int)] } := by
+  by_cases hidx : idxOK (s.lenList - 1) P.n = true
+  · have hidx' := hidx
+    simp [idxOK] at hidx'
+    obtain ⟨c, hc⟩ : ∃ c : Nat, s.lenList - 1 = (c : Int) := ⟨(s.lenList - 1).toNat, by omega⟩
+    have hidxc : idxOK (c : Int) P.n = true := by rw [← hc]; exact hidx
+    cases ho : s.pts c with
+    | none => simp [glueStep, he0, hc, hidxc, ho, St.fail] at he
+    | some kk =>
+      refine ⟨c, kk, by omega, by omega, ho, ?_⟩
+      simp [glueStep, he0, hc, hidxc, ho]
+  · simp [glueStep, he0, hidx, St.fail] at he
+
+section Loop2
+variable (P : Params) (oracle : Nat → Bool) (fuel : Nat) (ea : Int)
+
+theorem body2 (k : ThetaSt OSt) (i v w : Nat) (hf : k.fault = none) (hb : k.obs.bad = false)
+    (hi : k.i = (i : Int)) (hs1 : k.obs.size 1 = (P.n : Int)) (hs2 : k.obs.size 2 = (P.n : Int))
+    (hs3 : k.obs.size 3 = (P.n : Int)) (hs4 : k.obs.size 4 = (P.n : Int))
+    (hin : i < P.n) (hv : k.obs.arr 1 (i : Int) = some v) (hw : k.obs.arr 2 (i : Int) = some w) :
+    theta_chain_comput_strategy_loop2_body obs P.row oracle fuel P.n ea k =
+      { k with i := (i : Int) + 1, obs := (k.obs.put 3 (i : Int) (v - 1)).put 4 (i : Int) (w - 1) } := by
+  have hi0 : (0 : Int) ≤ (i : Int) := by omega
+  have hi2 : (i : Int) < (P.n : Int) := by omega
+  simp [theta_chain_comput_strategy_loop2_body, ThetaSt.step, ThetaSt.live, obs, hf, hb, hi, EvKind.glueEval,
+    ev_glueEval_s, OSt.inb, OSt.put, hs1, hs2, hs3, hs4, hv, hw, hi0, hi2, hin]
+
+/-- `for (i = 0; i < len_list; i++) gluing_eval_basis(&Q1[i], &Q2[i], &points1[i], &points2[i], …)`; `m` is the
+    hand-model state after `glueStep` -/
+theorem glue_sim : ∀ (cnt f i : Nat) (k : ThetaSt OSt) (m : St),
+    RelQ P (fun j => if j < i then m.q j else none) k m → k.i = (i : Int) → m.lenList = (i : Int) + (cnt : Int) →
+    cnt ≤ f → i + cnt ≤ P.n → (∀ j, j < i + cnt → ∃ v, m.pts j = some v ∧ m.q j = some (v - 1)) →
+    RelQ P (fun j => if j < i + cnt then m.q j else none)
+      (whileF (ThetaSt.live obs)
+        (fun s => match theta_chain_comput_strategy_loop2_cond obs P.row oracle fuel P.n ea s with | .ok b => b | .error _ => true)
+        (fun s => match theta_chain_comput_strategy_loop2_cond obs P.row oracle fuel P.n ea s with
+          | .ok _ => theta_chain_comput_strategy_loop2_body obs P.row oracle fuel P.n ea s | .error f => s.fail f)
+        (fun s => s.fail .fuel) f k) m := by
+  intro cnt
+  induction cnt with
+  | zero =>
+    intro f i k m R hi hl _ _ _
+    rw [whileF_stop _ _ _ _ _ _ (by simp [theta_chain_comput_strategy_loop2_cond, hi, R.ll, hl])]
+    exact R
+  | succ cnt ih =>
+    intro f i k m R hi hl hf hn hq
+    obtain ⟨f', rfl⟩ : ∃ f', f = f' + 1 := ⟨f - 1, by omega⟩
+    obtain ⟨v, hv, hqv⟩ := hq i (by omega)
+    have hlive : ThetaSt.live obs k = true := by simp [ThetaSt.live, obs, R.kf, R.kb]
+    rw [whileF_step _ _ _ _ _ _ (by simp [theta_chain_comput_strategy_loop2_cond, hi, R.ll, hl, hlive]; omega)]
+    have hbody : (match theta_chain_comput_strategy_loop2_cond obs P.row oracle fuel P.n ea k with
+        | .ok _ => theta_chain_comput_strategy_loop2_body obs P.row oracle fuel P.n ea k | .error f => k.fail f) =
+        theta_chain_comput_strategy_loop2_body obs P.row oracle fuel P.n ea k := by
+      simp [theta_chain_comput_strategy_loop2_cond]
+    rw [hbody, body2 P oracle fuel ea k i v v R.kf R.kb hi R.s1 R.s2 R.s3 R.s4 (by omega)
+      (by rw [R.a1, hv]) (by rw [R.a2, hv])]
+    have e : i + (cnt + 1) = (i + 1) + cnt := by omega
+    rw [e]
+    refine ih f' (i + 1) _ m ?_ (by simp) (by rw [hl]; push_cast; omega) (by omega) (by omega)
+      (fun j hj => hq j (by omega))
+    have hne1 : ¬ ((3 : Int) = 4) := by omega
+    constructor
+    · exact R.kf
+    · simp [OSt.put, R.kb]
+    · exact R.me
+    · exact R.ix
+    · exact R.ll
+    · exact R.lc
+    · exact R.ad
+    · exact R.lvs
+    · exact R.lvg
+    · simp [OSt.put, R.s1]
+    · simp [OSt.put, R.s2]
+    · simp [OSt.put, R.s3]
+    · simp [OSt.put, R.s4]
+    · simp [OSt.put, R.s5]
+    · intro j; simp [OSt.put, R.a1]
+    · intro j; simp [OSt.put, R.a2]
+    · intro j
+      simp only [OSt.put]
+      by_cases hj : j = i
+      · subst hj; simp [hqv]
+      · have : ¬ (j : Int) = (i : Int) := by omega
+        have h2 : j < i + 1 ↔ j < i := by omega
+        simp [this, R.a3, h2]
+    · intro j
+      simp only [OSt.put]
+      by_cases hj : j = i
+      · subst hj; simp [hqv]
+      · have : ¬ (j : Int) = (i : Int) := by omega
+        have h2 : j < i + 1 ↔ j < i := by omega
+        simp [this, R.a4, h2]
+    · simp [OSt.put, R.tg]
+    · simpa [OSt.put] using R.lg
+end Loop2
+
 end SqiProofs.SkelThetaSim
